@@ -154,10 +154,12 @@ def get_count__total_expansion__start_size(length, total_expansion, start_size):
     if abs(total_expansion - 1) < constants.TOL:
         return int(length / d_min)
 
+    log_expansion = np.log(total_expansion)
+
     def fcnt(cnt):
-        return (1 - total_expansion ** (cnt / (cnt - 1))) / (
-            1 - total_expansion ** (1 / (cnt - 1))
-        ) - length / start_size
+        # (1 - c^n)/(1 - c) with c = total_expansion^(1/(n-1)); written with expm1
+        # so that it keeps its accuracy (and its sign) for expansions close to 1
+        return np.expm1(log_expansion * cnt / (cnt - 1)) / np.expm1(log_expansion / (cnt - 1)) - length / start_size
 
     return int(scipy.optimize.brentq(fcnt, 0, length / d_min)) + 1  # type: ignore
 
